@@ -31,6 +31,10 @@ def run(ctx):
                     if s:
                         cnt['S1'] += 1
                         es = expr_side(n.value)
+                        # a value *computed* from the other side (a bound, a difference) is not a mix-up; only a
+                        # plain copy / lookup / call result of the other side is
+                        if any(isinstance(y, (ast.BinOp, ast.Compare, ast.BoolOp)) for y in ast.walk(n.value)):
+                            es = None
                         if es and es != s:
                             ctx.check('R-SIDE/S1', f, '%s = %s' % (x.id, U(n.value)[:50]), False,
                                       '%s-side name `%s` is assigned from the %s-side expression `%s`'
